@@ -30,7 +30,7 @@ CHECKS.update({
              "schedule. Tied to the code by (a) the translated _build_matrix proved equal to the model matrix on every run and "
              "(b) the float instance of the same Gallina model run by vm_compute against the implementation on generated cases; "
              "the proved conclusions are also evaluated on the implementation's own output to give concrete replays. "
-             "Time-monotonicity of the single-phase scheme is refuted on the real code (known finding K3). Second half (C01_relaxation.v): the ideal reservoir never rises in time at any node (superharmonicity invariant), and both reservoirs relax to the frac-face value with an explicit contraction factor n(n+1)/(n(n+1)+2 dt/dx^2 alpha_min) in a barrier norm, for any step size; the loop bodies of simulate are regenerated from the source and proved equal to the model's step system (C04_step_system.v).",
+             "Time-monotonicity of the single-phase scheme is refuted on the real code (known finding K3). Second half (C01_relaxation.v): the ideal reservoir never rises in time at any node (superharmonicity invariant), and both reservoirs relax to the frac-face value with an explicit contraction factor n(n+1)/(n(n+1)+2 dt/dx^2 alpha_min) in a barrier norm, for any step size; the loop bodies of simulate are regenerated from the source and proved equal to the model's step system (C04_step_system.v); C01_source_loop.v restates the bounds and the ideal time-monotonicity about the array the regenerated loop (header + body + elimination) leaves.",
         technique="Coq proof (min principle + induction over steps) over hand model + float-instance correspondence + translated matrix",
         design_ref="6/C01"),
     "C04": dict(
